@@ -104,7 +104,7 @@ impl Prop for C13 {
         for _ in 0..n_pre {
             // bias toward dynamic id 0, where the static shapes live
             let t = src.pick(res::NT);
-            let d = if src.chance(12, 16) { 0 } else { src.pick(res::ND) };
+            let d = if src.chance(12, 16) { 0 } else { src.pick(res::ND_CLASSIC) };
             let r = Res::new(t, d);
             if !preexisting.iter().any(|(x, _)| *x == r) {
                 preexisting.push((r, 1000 + src.raw() as u64));
@@ -674,7 +674,7 @@ impl Prop for C14 {
 pub struct C11Case {
     pub width: u8,
     pub extra_threads: u8,
-    /// 0 user pool, 1 default pool, 2 inside a batch, 3 async dispatcher, 4 default pool with a narrow batch registered before the wide stage
+    /// 0 user pool, 1 default pool, 2 inside a batch, 3 async dispatcher, 4 default pool with a narrow batch registered before the wide stage, 5 inside a batch that is registered before the pool is attached, 6 like 5 with a one-thread pool attached first and replaced
     pub mode: u8,
     /// number of groups that get a second, chained member (positions >= 1 do not rendezvous)
     pub tail: u8,
@@ -785,7 +785,7 @@ fn c11_plan(case: &C11Case) -> Plan {
         }
         return all;
     }
-    if case.mode == 2 {
+    if matches!(case.mode, 2 | 5 | 6) {
         vec![Op::Batch {
             name: "batch".into(),
             deps: vec![],
@@ -811,7 +811,7 @@ impl Prop for C11 {
         "C11"
     }
     fn rule(&self) -> &'static str {
-        "stage width 2..16 x pool size = width + 0..3 (capped at 16) x {user pool via with_pool, default pool, stage inside a batch dispatched twice, async dispatcher, default pool shared with a narrow batch registered first} x 3 repeated dispatches; oracle: the first system of every group of the widest stage blocks inside run until all of them have arrived; the dispatch must complete with every rendezvous met; a missed rendezvous is retried with 2 s, 5 s, 15 s time-outs and only three misses in a row are a violation; non-trivial = every case (width >= 2); distinct = case hash"
+        "stage width 2..16 x pool size = width + 0..3 (capped at 16) x {user pool via with_pool, default pool, stage inside a batch dispatched twice, async dispatcher, default pool shared with a narrow batch registered first, stage inside a batch registered before the (only, or a replacing second) pool is attached} x 3 repeated dispatches; oracle: the first system of every group of the widest stage blocks inside run until all of them have arrived; the dispatch must complete with every rendezvous met; a missed rendezvous is retried with 2 s, 5 s, 15 s time-outs and only three misses in a row are a violation; non-trivial = every case (width >= 2); distinct = case hash"
     }
     fn stream_len(&self) -> usize {
         24
@@ -820,7 +820,7 @@ impl Prop for C11 {
         C11Case {
             width: 2 + src.pick(15) as u8,
             extra_threads: src.pick(4) as u8,
-            mode: src.pick(5) as u8,
+            mode: src.pick(7) as u8,
             tail: src.pick(6) as u8,
             join: src.chance(8, 16),
             hints: src.pick(3) as u8,
@@ -903,7 +903,7 @@ fn c11_attempt(
     let flat = Arc::new(compile(plan));
     let ctx = Ctx::new(flat.clone());
     // members: the systems that form the first stage of the builder holding the wide stage
-    let wide_bid = if case.mode == 2 { 1 } else { 0 };
+    let wide_bid = if matches!(case.mode, 2 | 5 | 6) { 1 } else { 0 };
     let w = case.width.clamp(2, 16) as usize;
     // mode 4: builder 0 starts with the narrow batch, the wide systems follow it
     let skip = if case.mode == 4 { 1 } else { 0 };
@@ -920,13 +920,23 @@ fn c11_attempt(
     } else {
         Some(pool(lane, threads))
     };
-    let builder = build_builder(plan, &flat, 0, &ctx, user_pool, &BuildOpts::default())
+    let opts = BuildOpts {
+        // modes 5 / 6: the batch is registered before the pool is attached (6: a one-thread pool is
+        // attached first and replaced afterwards); the batch follows the builder's pool slot
+        pool_attach: match case.mode {
+            5 => 1,
+            6 => 2,
+            _ => 0,
+        },
+        ..BuildOpts::default()
+    };
+    let builder = build_builder(plan, &flat, 0, &ctx, user_pool, &opts)
         .map_err(|e| Fail::new(format!("builder panicked: {}", e.msg)))?;
     *ctx.rdv.lock().unwrap() = Some(rdv.clone());
     ctx.set_phase(PHASE_RUN);
     let dispatches = 3usize;
     let _ = &flat;
-    let inner_factor = if case.mode == 2 { 2 } else { 1 };
+    let inner_factor = if matches!(case.mode, 2 | 5 | 6) { 2 } else { 1 };
     let r = catch_unwind(AssertUnwindSafe(|| {
         if case.mode == 3 {
             let mut d = builder.build_async(fresh_world());
@@ -1098,6 +1108,10 @@ impl Prop for C12Sendable {
 
 pub struct C12AfterPanic {
     pub cfg: GenCfg,
+    pub property: &'static str,
+    pub name: &'static str,
+    /// only the asynchronous dispatcher (the C15 registration)
+    pub only_async: bool,
 }
 
 #[derive(Clone, Debug, Serialize, Deserialize)]
@@ -1180,10 +1194,10 @@ impl C12AfterPanic {
 impl Prop for C12AfterPanic {
     type Case = C12PanicCase;
     fn name(&self) -> &'static str {
-        "c12-after-panic"
+        self.name
     }
     fn property(&self) -> &'static str {
-        "C12"
+        self.property
     }
     fn rule(&self) -> &'static str {
         "plans with >= 1 top-level thread-local system; one generated thread-local system panics (before its fetch / inside run / after its release) in a first dispatch (or, for 5/16 of the cases, inside wait() of the asynchronous dispatcher built from the same registrations) whose panic is caught; oracle on the following dispatches (dispatch + wait) of the same dispatcher: every thread-local system still runs exactly once per dispatch, on the dispatching thread, after all ordinary systems, in registration order, and try_into_sendable still refuses; non-trivial = >= 2 thread-local systems; distinct = case hash"
@@ -1191,7 +1205,7 @@ impl Prop for C12AfterPanic {
     fn gen(&self, src: &mut Src) -> C12PanicCase {
         let which = src.raw();
         let point = 1 + src.pick(3) as u8;
-        let asynchronous = src.chance(5, 16);
+        let asynchronous = src.chance(5, 16) || self.only_async;
         C12PanicCase {
             plan: gen_plan(src, &self.cfg),
             which,
@@ -1200,7 +1214,7 @@ impl Prop for C12AfterPanic {
         }
     }
     fn check(&self, case: &C12PanicCase, lane: usize, st: &mut Stats) -> Result<(), Fail> {
-        if case.asynchronous {
+        if case.asynchronous || self.only_async {
             return self.check_async(case, lane, st);
         }
         let mut b = build_plan(&case.plan, pool(lane, 2), &BuildOpts::default())
